@@ -121,10 +121,10 @@ func c17Accepts(ae string) bool {
 
 func TestVerifC17Inputs(t *testing.T) {
 	L := ev.Begin("C17", "c17-inputs", "exploration",
-		"inner handler matrix body {empty, 1B, 512B text, 100kB text, already-gzipped} x every chunking class into <=3 writes x explicit/implicit WriteHeader x status {200,201,404,500 (+204,304 bodiless)} x Content-Type {matching, matching+charset, non-matching, absent(sniffed)} x Content-Encoding {none,gzip,br} x Content-Length {absent,correct} x request Accept-Encoding {none,gzip,'gzip, deflate',br,identity,'gzip;q=0'} x Accept {*/*, text/event-stream}, served through a real http.Server; oracle: compressed only if the three conditions hold, then labelled, no stale Content-Length, gunzip == inner bytes; otherwise body and headers byte-identical; status always preserved. non-trivial = response with a body")
+		"inner handler matrix body {empty, 1B, 512B text, 100kB text, already-gzipped} x every chunking class into <=3 writes x explicit/implicit WriteHeader x status {200,201,404,500 (+204,304 bodiless)} x Content-Type {matching, matching+charset, non-matching, absent(sniffed)} x Content-Encoding {none,gzip,br,zstd,aes128gcm} x Content-Length {absent,correct} x request Accept-Encoding {none,gzip,'gzip, deflate',br,identity,'gzip;q=0'} x Accept {*/*, text/event-stream}, served through a real http.Server; oracle: compressed only if the three conditions hold, then labelled, no stale Content-Length, gunzip == inner bytes; otherwise body and headers byte-identical; status always preserved. non-trivial = response with a body")
 	bodies := [][]byte{nil, []byte("x"), c17Text(512), c17Text(100 * 1024), c17Gz(c17Text(2000))}
 	ctypes := []string{"text/plain", "text/html; charset=utf-8", "application/json", "image/png", ""}
-	cencs := []string{"", "gzip", "br"}
+	cencs := []string{"", "gzip", "br", "zstd", "aes128gcm"}
 	aes := []string{"", "gzip", "gzip, deflate", "br", "identity", "gzip;q=0", "deflate, gzip;q=0.5"}
 	accepts := []string{"*/*", "text/event-stream"}
 	type job struct {
